@@ -431,7 +431,6 @@ impl<'a> ProtocolsChange<'a> {
             *v = false;
         }
 
-        let mut new_protocol_count = 0; // We can only iterate `new_protocols` once, so keep track of its length separately.
         for new_protocol in new_protocols {
             existing_protocols
                 .entry(AsStrHashEq(new_protocol))
@@ -441,10 +440,11 @@ impl<'a> ProtocolsChange<'a> {
                     buffer.extend(StreamProtocol::try_from_owned(k.0.as_ref().to_owned()).ok());
                     true
                 });
-            new_protocol_count += 1;
         }
 
-        if new_protocol_count == existing_protocols.len() && buffer.is_empty() {
+        // Nothing was added and every known protocol was visited (i.e. is still supported).
+        // Counting the new protocols instead is wrong when they contain duplicates.
+        if buffer.is_empty() && existing_protocols.values().all(|&is_supported| is_supported) {
             return SmallVec::new();
         }
 
